@@ -5,8 +5,6 @@ EXTENDS MCMessenger, IOUtils, TLCExt
 
 Traces == JsonDeserialize(IOEnv.TRACE_FILE)
 NT == Len(Traces)
-\* the chunks the driver sent are the alphabet
-TraceBatches == UNION {{Traces[t][i].args.ms : i \in {j \in DOMAIN Traces[t] : Traces[t][j].a = "Rx"}} : t \in 1..NT}
 VARIABLES tid, l
 tvars == <<vars, tid, l>>
 
@@ -25,7 +23,8 @@ ObsOK == /\ E.wf
 
 TrListen    == IsEvent("Listen") /\ Listen /\ ObsOK
 TrOpen      == IsEvent("Open") /\ Open(E.args.c) /\ ObsOK
-TrRx        == IsEvent("Rx") /\ Rx(E.args.c, E.args.ms) /\ ObsOK
+\* the chunks the driver sent are the alphabet (RxBody = Rx without the bound `ms \in Batches` of the model)
+TrRx        == IsEvent("Rx") /\ RxBody(E.args.c, E.args.ms) /\ ObsOK
 TrPeerClose == IsEvent("PeerClose") /\ PeerClose(E.args.c, E.args.how) /\ ObsOK
 TrClose     == IsEvent("Close") /\ Close(E.args.c) /\ ObsOK
 TrChanSend  == IsEvent("ChanSend") /\ ChanSendAct(E.args.n) /\ ObsOK
